@@ -161,7 +161,7 @@ func runC12(c *Ctx, d c12Desc) {
 	conn2 := vh.NewParty("rt:"+rtp.Name+"#2", w.E.Addr, w.E.Log, rtp.Ctx)
 
 	m := &c12Model{snapshot: d.Snapshot, state: "Started"}
-	var parked *vh.Async    // outstanding blocking call (next / restore-next) on conn1
+	var parked *vh.Async // outstanding blocking call (next / restore-next) on conn1
 	var parkedOp string
 	var staleIDs []string
 	var invs []*vh.Invocation
